@@ -69,6 +69,7 @@ class Profile:
         observe_pct=0,
         swap_cjmp_arms=0,
         mixed_zero_signs=True,
+        word_aligned_allocas=False,
         forbidden=(),
     ):
         self.__dict__.update(locals())
@@ -469,7 +470,11 @@ class _FuncGen:
         prof = self.prof
         if True:
             size = self.pick([1, 2, 4, 4, 8, 8, 12, 16, 24])
-            align = self.pick([a for a in (1, 2, 4, 8) if a <= max(1, size) and size % a == 0])
+            aligns = [a for a in (1, 2, 4, 8) if a <= max(1, size) and size % a == 0]
+            if prof.word_aligned_allocas and size >= 4:
+                # consumers whose subject mishandles 4 byte accesses to frame slots that are not 4-aligned
+                aligns = [a for a in aligns if a >= 4]
+            align = self.pick(aligns)
             an = self.fresh("a")
             out.append(["alloc", an, size, align])
             pn = self.fresh("ap")
